@@ -2,7 +2,7 @@
    Spec: MutSpec.spec_step (firstn/skipn/rev/++ only, from the reference documentation).
    Model: Mutators.v (mirrors BitArray.insert/overwrite/append/prepend/__delitem__/set/invert/reverse/
    rol/ror/<<=/>>=/clear and the Bits._insert/_overwrite/_delete/_slice helpers) through MutProofs.model_step. *)
-From BS Require Import Prims BitsCore Mutators MutSpec MutProofs SeqProofs.
+From BS Require Import Prims BitsCore Search Mutators MutSpec MutProofs SeqProofs MutProofs2 FastPath ByteswapProofs.
 Open Scope Z_scope.
 
 (* every modelled mutator, for every content and every argument value (negative positions, empty
@@ -20,7 +20,50 @@ Theorem C03_window_frame : forall b s e f, 0 <= s -> s <= e -> e <= zlen b -> (f
   take s (in_window b s e f) = take s b /\ drop e (in_window b s e f) = drop e b /\ zlen (in_window b s e f) = zlen b.
 Proof. exact window_frame. Qed.
 
-(* *= n and the in-place & | ^ are covered by C01_mul / C16 (same model functions) *)
+(* set(v, iterable of positions): length kept; a bit is v exactly when its index is among the (normalised) positions before the first
+   invalid one, otherwise unchanged; IndexError exactly when some position is outside [-len, len) *)
+Theorem C03_set_positions : forall v ps b,
+  let r := set_list false b v ps in
+  zlen (fst r) = zlen b /\
+  (forall i, 0 <= i < zlen b -> znth false (fst r) i = if existsb (Z.eqb i) (applied (zlen b) ps) then v else znth false b i) /\
+  snd r = (if all_valid (zlen b) ps then None else Some IndexError).
+Proof. exact set_list_spec. Qed.
+Theorem C03_set_positions_frame : forall v ps b i, 0 <= i < zlen b -> (forall p, In p ps -> norm_pos (zlen b) p <> i) ->
+  znth false (fst (set_list false b v ps)) i = znth false b i.
+Proof. exact set_list_frame. Qed.
+(* set(v, range(a, s, c)): the slice fast path (taken only under its guard) is the per-position loop, for every range *)
+Theorem C03_set_range_fast_path_is_the_loop : forall b v a s c, c <> 0 ->
+  ba_set_range false b v a s c = set_list false b v (range_list a s c).
+Proof. exact set_range_fast_path_is_loop. Qed.
+(* invert(iterable): length kept, unlisted positions unchanged, error exactly on an invalid position *)
+Theorem C03_invert_positions_frame : forall ps b,
+  let r := invert_list false b ps in
+  zlen (fst r) = zlen b /\
+  (forall i, 0 <= i < zlen b -> (forall p, In p ps -> norm_pos (zlen b) p <> i) -> znth false (fst r) i = znth false b i) /\
+  (snd r = None <-> all_valid (zlen b) ps = true).
+Proof. exact invert_list_frame. Qed.
+(* *= n *)
+Theorem C03_imul : forall b n, (0 <= n -> ba_imul false b n = Ok (rep b (Z.to_nat n))) /\ (n < 0 -> ba_imul false b n = Err ValueError).
+Proof. intros. split; [apply imul_is_n_copies|apply imul_negative]. Qed.
+(* byteswap(fmt, start, end, repeat): complete patterns inside [start, end) have each group's bytes reversed; the number of patterns is returned;
+   an incomplete pattern and everything outside the window are untouched; the length is kept *)
+Theorem C03_byteswap : forall b sizes start stop repeat_ s e,
+  nonneg sizes -> 0 < sum8 sizes -> validate_slice b start stop = Ok (s, e) ->
+  let k := patterns s e (sum8 sizes) repeat_ in
+  ba_byteswap false b sizes start stop repeat_ =
+  Ok (take s b ++ swap_blocks (Z.to_nat k) (sum8 sizes) sizes (take (k * sum8 sizes) (drop s b)) ++ drop (s + k * sum8 sizes) b, k).
+Proof. exact byteswap_spec. Qed.
+Theorem C03_byteswap_frame : forall b sizes start stop repeat_ s e b' r,
+  nonneg sizes -> 0 < sum8 sizes -> validate_slice b start stop = Ok (s, e) ->
+  ba_byteswap false b sizes start stop repeat_ = Ok (b', r) ->
+  take s b' = take s b /\ drop e b' = drop e b /\ zlen b' = zlen b /\ r = patterns s e (sum8 sizes) repeat_.
+Proof. exact byteswap_frame. Qed.
+Theorem C03_swapbytes_reverses_the_bytes : forall w, whole w -> swapbytes w = concat (rev (to_bytes w)) /\ swapbytes (swapbytes w) = w.
+Proof. intros. split; [apply swapbytes_is_byte_reversal|apply swapbytes_involutive]; assumption. Qed.
+Example C03_byteswap_nonvacuous :
+  ba_byteswap false (frombytes [1; 2; 3; 4; 5; 6; 7]) [2; 1] None None true = Ok (frombytes [2; 1; 3; 5; 4; 6; 7], 2).
+Proof. vm_compute. reflexivity. Qed.
+(* the in-place & | ^ are covered by C16 (same model functions) *)
 
 Example C03_nonvacuous :
   model_run [true;false;true;true;false] [MInsert [true;true] 2; MRol 1 (Some 1) (Some 5); MReverse None None; MDelBit (-1); MOverwrite [false] 9]
@@ -30,3 +73,11 @@ Proof. vm_compute. reflexivity. Qed.
 Print Assumptions C03_step_refines.
 Print Assumptions C03_program_refines.
 Print Assumptions C03_window_frame.
+Print Assumptions C03_set_positions.
+Print Assumptions C03_set_positions_frame.
+Print Assumptions C03_set_range_fast_path_is_the_loop.
+Print Assumptions C03_invert_positions_frame.
+Print Assumptions C03_imul.
+Print Assumptions C03_byteswap.
+Print Assumptions C03_byteswap_frame.
+Print Assumptions C03_swapbytes_reverses_the_bytes.
